@@ -640,6 +640,9 @@ func c15File(c *fw.Ctx, r *rand.Rand, j int) {
 	if oerr != nil {
 		c.Count("open_rejected", 1)
 		// rejecting a file must not leave anything behind that makes the next Open of it wait
+		if c.Env.State["c15_second_open_hung"] != nil {
+			return // already convicted in this worker: do not wait another 30 s per file
+		}
 		done := make(chan struct{})
 		go func() {
 			if h2, err := wt.Open(path); err == nil {
@@ -651,6 +654,7 @@ func c15File(c *fw.Ctx, r *rand.Rand, j int) {
 		case <-done:
 			c.Count("second_open_after_rejection", 1)
 		case <-time.After(30 * time.Second):
+			c.Env.State["c15_second_open_hung"] = true
 			c.Violationf("hang:open-after-rejected-open", di, "Open rejected the file (%s: %v); a second Open of the same file did not return within 30 s", how, oerr)
 			return
 		}
